@@ -414,6 +414,9 @@ def c15(tier, seed):
     nj, nh = (8, 200) if tier == "quick" else (32, 1000)
     return dict(
         jobs=[dict(kind="hist15", n_histories=nh, **_seeds(seed, k)) for k in range(nj)]
+        # at max_concurrency=1 with tie-free priorities the k-th call of one object starts its nodes in the same order as the first
+        + [dict(kind="cp", pid="C15", exhaustive_n=[2, 3, 4] if tier == "quick" else [2, 3, 4, 5], part=0, nparts=1, random_cases=(20 if tier == "quick" else 200),
+                seed=seed * 97 + 70 + h, hashseed=h, variants={"debug": 1, "retry": 1}) for h in range(1 if tier == "quick" else 4)]
         # "... except setup results": what an execution leaves on the instance about SETUP nodes must be their first value - never
         # a None for a setup node the execution did not select, never a value that makes a later execution skip or repeat one
         + [dict(kind="hist11", pid="C15", n_histories=(60 if tier == "quick" else 600),
